@@ -395,6 +395,23 @@ Proof.
   rewrite Z.mul_1_r in H1. exact H1.
 Qed.
 
+(* least power-of-two exponent: if b^(2^e) ≡ 1 there is a least k <= e with
+   b^(2^k) ≡ 1, and then b^(2^(k-1)) ≡ -1 unless k = 0 *)
+Lemma pow2_least : forall p b e, prime p -> 0 <= e -> (b ^ (2 ^ e)) mod p = 1 ->
+  exists k, 0 <= k <= e /\ (b ^ (2 ^ k)) mod p = 1 /\
+            (k = 0 \/ (b ^ (2 ^ (k - 1))) mod p = p - 1).
+Proof.
+  intros p b e Hp He. pattern e. apply natlike_ind; [ | | exact He ].
+  - intros H. exists 0. split; [ lia | ]. split; [ exact H | left; reflexivity ].
+  - intros x Hx IH H. rewrite <- Z.add_1_r in H.
+    destruct (pow2_half_pm1 p b x Hp Hx H) as [H1 | H1].
+    + destruct (IH H1) as (k & Hk & Hk1 & Hk2).
+      exists k. split; [ lia | ]. split; assumption.
+    + exists (Z.succ x). split; [ lia | ]. split.
+      * rewrite <- Z.add_1_r. exact H.
+      * right. replace (Z.succ x - 1) with x by lia. exact H1.
+Qed.
+
 Print Assumptions fermat_little.
 Print Assumptions inv_mod_unique.
 Print Assumptions euler_nonsquare.
